@@ -299,6 +299,10 @@ class BaseKFACPreconditioner:
             compute_inverses = False  # Cannot be computed if no layers
         if compute_inverses:
             for name, layer in self._layers.values():
+                # The factors are None if the state was saved before the
+                # first factor update (e.g., a checkpoint taken at step 0)
+                if layer.a_factor is None or layer.g_factor is None:
+                    continue
                 layer.compute_a_inv(damping=self.damping)
                 layer.compute_g_inv(damping=self.damping)
                 # Only gradient workers are members of the layer's gradient
